@@ -110,6 +110,11 @@ def standin_corpus(tier, seed):
 standin_corpus.prop = "C11"
 
 
+def _norm_print(text):
+    """a printed value with the list / tuple distinction of its containers erased (JSON has only lists; [0, 1] and (0, 1) hold the same data)"""
+    return text.replace("[", "(").replace("]", ")").replace(",)", ")").replace(", )", ")")
+
+
 def _laws(obj, label, fails, args, imp, check_repr=True):
     """round trip, text stability, hash, repr, copy, pickle for one value (or list of values)"""
     import cirq
@@ -170,7 +175,7 @@ def _laws(obj, label, fails, args, imp, check_repr=True):
                 bad("repr-differs", f"eval(repr(v)) != v for {type(v).__name__}")
             # "equal behaviour": fields that == does not look at (e.g. the metadata of a sweep) are visible in the printed representation;
             # the value read back prints like the original whenever the original's own print evaluates back to something printing the same
-            elif repr(e) == r and repr(w) != r:
+            elif repr(e) == r and _norm_print(repr(w)) != _norm_print(r):
                 bad("roundtrip-repr-differs", f"the value read back prints differently: {repr(w)[:200]} vs {r[:200]}")
 
 
@@ -340,6 +345,43 @@ def standin_roundtrip(tier, seed):
     for label, obj in _families(rng):
         cases += 1
         _laws(obj, label, fails, dict(family=label, value=repr(obj)[:1200]), imp)
+    # (d) values filled by use, long integers, vendor metadata; pairs of equal values written in different orders hash equally; a mutable
+    #     value compares by its CURRENT contents (exactly and approximately) after an in-place change
+    q_ = cirq.LineQubit.range(3)
+    store = cirq.ClassicalDataDictionaryStore()
+    store.record_measurement(cirq.MeasurementKey("m"), [0, 1], q_[:2])
+    store.record_measurement(cirq.MeasurementKey("m"), [1, 1], q_[:2])
+    store.record_channel_measurement(cirq.MeasurementKey("c"), 2)
+    used = [store, cirq.Duration(millis=2 ** 53 + 1), cirq.Duration(micros=2 ** 55 + 1), cirq.Duration(picos=2 ** 62 + 3)]  # (kept below the range of datetime.timedelta, which Duration hashes through)
+    try:
+        import cirq_google
+        used += [cirq_google.study.Metadata(unit="ns"), cirq_google.study.Metadata(label="l", is_const=True, unit="GHz")]
+    except (ImportError, AttributeError):
+        pass
+    for v in used:
+        cases += 1
+        _laws(v, type(v).__name__, fails, dict(family="values filled by use / long integers / vendor metadata", value=repr(v)[:600]), imp)
+    pairs = [(cirq.KET_ZERO(q_[0]) * cirq.KET_ONE(q_[1]), cirq.KET_ONE(q_[1]) * cirq.KET_ZERO(q_[0])),
+             (cirq.KET_PLUS(q_[2]) * cirq.KET_ZERO(q_[0]) * cirq.KET_IMAG(q_[1]), cirq.KET_IMAG(q_[1]) * cirq.KET_PLUS(q_[2]) * cirq.KET_ZERO(q_[0])),
+             (cirq.PauliString({q_[0]: cirq.X, q_[1]: cirq.Z}), cirq.PauliString({q_[1]: cirq.Z, q_[0]: cirq.X})),
+             (cirq.ParamResolver({"a": 1, "b": 2}), cirq.ParamResolver({"b": 2, "a": 1})),
+             (cirq.Moment(cirq.X(q_[0]), cirq.Z(q_[1])), cirq.Moment(cirq.Z(q_[1]), cirq.X(q_[0])))]
+    for x, y in pairs:
+        cases += 1
+        if x == y:
+            try:
+                if hash(x) != hash(y):
+                    fails.append(dict(args=dict(a=repr(x)[:300], b=repr(y)[:300]), failed="equal-values-hash-differently", clause=f"two equal {type(x).__name__} values have different hashes"))
+            except TypeError:
+                pass
+    cases += 1
+    m1 = cirq.MutableDensePauliString("XX")
+    cirq.approx_eq(m1, cirq.MutableDensePauliString("XX")), m1 == cirq.MutableDensePauliString("XX")   # any caching happens here
+    m1[0] = "Z"
+    for other, want in ((cirq.MutableDensePauliString("XX"), False), (cirq.MutableDensePauliString("ZX"), True)):
+        if (m1 == other) != want or cirq.approx_eq(m1, other) != want:
+            fails.append(dict(args=dict(value=repr(m1), other=repr(other)), failed="mutable-value-compares-stale",
+                              clause=f"after m[0] = 'Z' on 'XX': == gives {m1 == other}, approx_eq gives {cirq.approx_eq(m1, other)}, expected {want}"))
     return dict(function="cirq-core/cirq/protocols/json_serialization.py:to_json/read_json", case="roundtrip",
                 bound=f"every stored value + {rounds} perturbations of every stored document (numeric/boolean leaves) + hand-made families (colliding hashes, negative coordinates, "
                       "shared sub-circuits, sympy, numpy, pandas, non-default fields)", cases=cases, distinct=len(distinct) + 400, failures=len(fails), exhaustive=False, _fails=_uniq(fails, 6))
